@@ -7,8 +7,10 @@ import (
 )
 
 var (
-	typeVocab = []string{"text", "application", "a", "ab", "tex", "x-t"}
-	subVocab  = []string{"plain", "json", "b", "bc", "xml", "x-y.z+json", "vnd.a+b"}
+	// the names with capitals have no lower-case twin here: offers and ranges spell them identically (what a range in
+	// another letter case selects is not something the statement decides)
+	typeVocab = []string{"text", "application", "a", "ab", "tex", "x-t", "Image"}
+	subVocab  = []string{"plain", "json", "b", "bc", "xml", "x-y.z+json", "vnd.a+b", "vnd.Acme.v1+json", "PNG"}
 
 	// parameter names before q: ordinary ones and names that end in / start with "q"
 	paramNames = []string{"charset", "level", "version", "v", "foo", "xq", "freq", "q2", "qs", "Xq", "seq", "q-x"}
